@@ -46,7 +46,7 @@ func main() {
 		Plan: func(tier string, seed int64) []kit.Batch {
 			n, budget, reps, per := 20, 400, 3, 1
 			if tier == "thorough" {
-				n, budget, reps, per = 400, 2500, 5, 3
+				n, budget, reps, per = 150, 1500, 4, 4
 			}
 			var bs []kit.Batch
 			for k := 0; k < per; k++ {
